@@ -408,6 +408,31 @@ func firstLine(s string) string {
 	return s
 }
 
+// errHint is the first line of a test-engine error followed by the gnark std frames of its stack.
+func errHint(err error) string {
+	if err == nil {
+		return ""
+	}
+	msg := err.Error()
+	var frames []string
+	for _, l := range strings.Split(msg, "\n") {
+		l = strings.TrimSpace(l)
+		if i := strings.Index(l, "/std/"); i >= 0 && strings.Contains(l, ".go:") {
+			f := l[i+1:]
+			if j := strings.Index(f, " "); j >= 0 {
+				f = f[:j]
+			}
+			if len(frames) == 0 || frames[len(frames)-1] != f {
+				frames = append(frames, f)
+			}
+		}
+		if len(frames) >= 7 {
+			break
+		}
+	}
+	return firstLine(msg) + " @ " + strings.Join(frames, " < ")
+}
+
 // nativeVerify runs the native verifier with the recursion options.
 func (in *inner) nativeVerify(proof any, vk any, pub []*big.Int) error {
 	w := mkPub(in.f.Q, pub)
@@ -938,7 +963,7 @@ func (in *inner) evalTriple(t Triple, cc *compiledCache) (res tripleResult) {
 			// Σ xᵢ·Kᵢ is the point at infinity and AssertProof adds K₀ (and the commitments) with the
 			// incomplete curve.Add even under WithCompleteArithmetic (std/recursion/groth16/verifier.go
 			// "kSum = v.curve.Add(kSum, &vk.G1.K[0])"): honest proofs of an all-zero public vector are rejected
-			msg := fmt.Sprintf("%s COMPLETENESS: native verifier accepts, outer circuit with WithCompleteArithmetic is unsatisfiable for an all-zero public vector: %s", where, firstLine(ov.err.Error()))
+			msg := fmt.Sprintf("%s COMPLETENESS: native verifier accepts, outer circuit with WithCompleteArithmetic is unsatisfiable for an all-zero public vector: %s", where, errHint(ov.err))
 			switch findingStatus(ID, sigAllZero) {
 			case "open":
 				res.known = sigAllZero
@@ -948,7 +973,7 @@ func (in *inner) evalTriple(t Triple, cc *compiledCache) (res tripleResult) {
 				res.violation = msg
 			}
 		} else {
-			res.violation = fmt.Sprintf("%s COMPLETENESS: native verifier accepts, outer circuit is unsatisfiable: %s", where, firstLine(ov.err.Error()))
+			res.violation = fmt.Sprintf("%s COMPLETENESS: native verifier accepts, outer circuit is unsatisfiable: %s", where, errHint(ov.err))
 		}
 	case !res.native && outerOK:
 		if torsion && !c.Subgroup {
